@@ -450,7 +450,7 @@ class DependencyTools():
     # -------------------------------------------------------------------------
     @staticmethod
     def _independent_multi_subscript(var_name, write_access, other_access,
-                                     subscripts):
+                                     subscripts, loop_variables=()):
         '''Test multiple subscripts that share variables. This includes cases
         like `a(i,i) = a(i,i+1)` or `a(i, indx(i)) = a(i,5)` etc.
         At this stage only a minimal test is done: if there is one subscript
@@ -480,9 +480,18 @@ class DependencyTools():
         # parallelised. E.g. `a(i, index(i)) = a(i, 5)`. The fact that
         # the first subscript is i, means that each different iteration
         # will access a different column, even if index(i) is 5.
+        # A subscript that also uses another (inner) loop variable proves
+        # nothing: that variable takes all its values in each iteration.
+        others = set(loop_variables) - {var_name}
+        all_ind = list(write_access.component_indices.iterate())
+        used = [one | two for one, two in zip(
+            write_access.component_indices.get_subscripts_of(others),
+            other_access.component_indices.get_subscripts_of(others))]
         for ind in subscripts:
             index_written = write_access.component_indices[ind]
             index_other = other_access.component_indices[ind]
+            if used[all_ind.index(ind)]:
+                continue
             distance = DependencyTools._get_dependency_distance(var_name,
                                                                 index_written,
                                                                 index_other)
@@ -576,7 +585,8 @@ class DependencyTools():
                 indep = self._independent_multi_subscript(loop_var,
                                                           write_access,
                                                           other_access,
-                                                          subscripts)
+                                                          subscripts,
+                                                          loop_variables)
                 if indep:
                     return True
 
